@@ -8,6 +8,8 @@ package main
 import (
 	"bytes"
 	"fmt"
+	"go/ast"
+	"go/importer"
 	"go/parser"
 	"go/token"
 	"go/types"
@@ -46,39 +48,87 @@ type verifSchedViolation struct {
 func verifSchedExplore(req *verifReq) interface{} {
 	res := &verifSchedResult{Observations: map[string]int{}}
 	fset := token.NewFileSet()
-	f, err := parser.ParseFile(fset, "p.go", "package p\n", 0)
-	if err != nil {
-		panic(err)
+	src := "package p\n"
+	if req.Src != "" {
+		src = req.Src
 	}
-	ctx := linter.NewContext(fset, types.SizesFor("gc", runtime.GOARCH))
+	f, err := parser.ParseFile(fset, "p.go", src, parser.ParseComments)
+	if err != nil {
+		return map[string]string{"err": err.Error()}
+	}
+	var info *types.Info
+	var tpkg *types.Package
+	if req.Src != "" {
+		info = &types.Info{Types: map[ast.Expr]types.TypeAndValue{}, Defs: map[*ast.Ident]types.Object{}, Uses: map[*ast.Ident]types.Object{},
+			Implicits: map[ast.Node]types.Object{}, Selections: map[*ast.SelectorExpr]*types.Selection{}, Scopes: map[ast.Node]*types.Scope{}, Instances: map[*ast.Ident]types.Instance{}}
+		tpkg, err = (&types.Config{Importer: importer.ForCompiler(fset, "source", nil)}).Check("p", fset, []*ast.File{f}, info)
+		if err != nil {
+			return map[string]string{"err": err.Error()}
+		}
+	}
 	byName := map[string]*linter.CheckerInfo{}
 	for _, in := range linter.GetCheckersInfo() {
 		byName[in.Name] = in
 	}
-	var cs []*linter.Checker
-	for _, n := range req.Args {
-		in := byName[n]
-		if in == nil {
-			return map[string]string{"err": "no probe " + n}
+	// every execution starts from a fresh context and fresh checkers, like a fresh CLI run
+	mk := func(names []string, conc int) (*program, string) {
+		ctx := linter.NewContext(fset, types.SizesFor("gc", runtime.GOARCH))
+		if info != nil {
+			ctx.SetPackageInfo(info, tpkg)
+			ctx.SetFileInfo("p.go", f)
 		}
-		c, err := linter.NewChecker(ctx, in)
-		if err != nil {
-			return map[string]string{"err": err.Error()}
+		var cs []*linter.Checker
+		for _, n := range names {
+			in := byName[n]
+			if in == nil {
+				return nil, "no checker " + n
+			}
+			c, err := linter.NewChecker(ctx, in)
+			if err != nil {
+				return nil, err.Error()
+			}
+			cs = append(cs, c)
 		}
-		cs = append(cs, c)
+		return &program{ctx: ctx, fset: fset, checkers: cs, concurrency: conc}, ""
 	}
-	p := &program{ctx: ctx, fset: fset, checkers: cs, concurrency: req.DirDepth}
+	p, emsg := mk(req.Args, req.DirDepth)
+	if emsg != "" {
+		return map[string]string{"err": emsg}
+	}
 	var logbuf bytes.Buffer
 	log.SetOutput(&logbuf)
 	defer log.SetOutput(os.Stderr)
 	body := func() {
+		if req.Src != "" {
+			p, _ = mk(req.Args, req.DirDepth)
+		}
 		p.foundIssues = false
 		p.checkFile(f)
 	}
 	// sequential reference: the diagnostics each checker produces alone, in checker order
 	var wantLines []string
 	willDie := ""
+	if req.Src != "" {
+		// real checkers: the reference is what each checker prints alone (own context, outside the scheduler)
+		for _, n := range req.Args {
+			// run under the scheduler as well (default schedule): every goroutine of the reference run is
+			// managed and has unwound before the exploration starts
+			q, _ := mk([]string{n}, 1)
+			if x := verifmcrt.Run(nil, func() { q.checkFile(f) }); x.Diverged != "" || x.Deadlock || x.Died != "" {
+				return map[string]string{"err": fmt.Sprintf("reference run of %s: diverged=%q deadlock=%v died=%q", n, x.Diverged, x.Deadlock, x.Died)}
+			}
+			for _, l := range strings.Split(logbuf.String(), "\n") {
+				if l != "" {
+					wantLines = append(wantLines, l)
+				}
+			}
+			logbuf.Reset()
+		}
+	}
 	for _, n := range req.Args {
+		if req.Src != "" {
+			break
+		}
 		if strings.HasPrefix(n, "vschedPanic") && willDie == "" {
 			willDie = n
 		}
